@@ -13,17 +13,24 @@ open Bp Cbor
 
 /-! ### identities -/
 
-/-- `bundle_ident()`: (source, time, seqno) and, for fragments only, (offset, total length). -/
+/-- `bundle_ident()`: (source, time, seqno) and, for fragments only, (offset, length of the BTSD
+    of the block numbered 1 — `None` when there is no such block or no BTSD). -/
 structure Ident where
   src : Eid
   time : Nat
   seq : Nat
-  frag : Option (Nat × Nat)
+  frag : Option (Nat × Option Nat)
   deriving DecidableEq, Repr, Inhabited
 
-def identOf (p : Primary) : Ident :=
+/-- `len(pyld_blk.getfieldval('btsd'))` of `_block_num.get(1)` -/
+def pyldLen (blocks : List Blk) : Option Nat :=
+  (blocks.find? (fun b => b.num == 1)).bind (fun b => b.c.btsd.map List.length)
+
+def identOf (p : Primary) (blocks : List Blk) : Ident :=
   { src := p.src, time := p.ts.time, seq := p.ts.seq,
-    frag := if isFragment p.flags then some (p.fragOff, p.totalLen) else none }
+    frag := if isFragment p.flags then some (p.fragOff, pyldLen blocks) else none }
+
+def Ctr.ident (c : Ctr) : Ident := identOf c.primary c.blocks
 
 /-! ### receive chain from Facts -/
 
@@ -99,12 +106,6 @@ structure St where
   /-- `Timestamper._time`, `._seqno` -/
   tsTime : Option Nat := none
   tsSeq : Nat := 0
-  /-- `block_num` left in the class-level scapy dict `PreviousNodeBlock._overload_fields[
-      CanonicalBlock]` by `_fix_blk_num` writing `blk.overloaded_fields['block_num']`: every later
-      `CanonicalBlock() / PreviousNodeBlock(...)` of the process starts with that number. -/
-  stickyPrev : Option Nat := none
-  /-- same for `BundleAgeBlock` -/
-  stickyAge : Option Nat := none
   deriving Repr, Inhabited
 
 inductive Effect where
@@ -166,12 +167,12 @@ def finish (st : St) (c : Ctr) : St × List Effect :=
   match reportFor c with
   | some rep =>
     ({ st with rptQ := st.rptQ ++ [replyCtr c.primary.rpt rep] },
-     [.report (identOf c.primary) rep (replyCtr c.primary.rpt rep)])
+     [.report c.ident rep (replyCtr c.primary.rpt rep)])
   | none => (st, [])
 
 /-- After the chain: delete ⇒ report and stop; deliver ⇒ report; forward ⇒ queue. -/
 def dispose (st : St) (c : Ctr) : St × List Effect :=
-  let id := identOf c.primary
+  let id := c.ident
   if hasAct c.actions .delete then finish st c
   else
     let (st1, e1) := if hasAct c.actions .deliver then
@@ -187,7 +188,7 @@ def recvBundle (cfg : Cfg) (st : St) (now : Nat) (rx : RxBundle) : St × List Ef
   if !rx.crcOk then (st, [])
   else if rx.primary.src == cfg.nodeId then (st, [])
   else
-    let id := identOf rx.primary
+    let id := identOf rx.primary rx.blocks
     if st.seen.contains id then (st, [])
     else
       let st1 := { st with seen := id :: st.seen }
@@ -239,7 +240,8 @@ def applyPrimary (cfg : Cfg) (st : St) (now : Nat) (c : Ctr) : St × Ctr :=
 inductive FragOut where
   | none       -- not fragmented
   | consumed   -- fragments scheduled, `route = sender = None`, returns True
-  | raises     -- step raised; the chain breaks, route kept
+  | raises     -- step raised with the route kept; the chain breaks, the bundle leaves whole
+  | unsendable -- cannot be fragmented: `route = sender = None`, then raises
   deriving DecidableEq, Repr, Inhabited
 
 structure SendParams where
@@ -254,14 +256,16 @@ structure SendParams where
 
 inductive SendRes where
   | sent (b : Bundle)
-  | noSender (fragmented : Bool)
+  | consumed      -- a chain step took over transmission (fragments): `send_bundle` returns
+  | noSender      -- "TX chain completed with no sender" raised
   deriving Repr
 
 /-- The TX chain and the sender lookup of `send_bundle`, then `update_all_crc` and encoding. -/
 def sendRes (sp : SendParams) (c : Ctr) : SendRes :=
-  if !sp.txBits.any id then .noSender false
-  else if sp.frag == .consumed then .noSender true
-  else if !sp.clOk then .noSender false
+  if !sp.txBits.any id then .noSender
+  else if sp.frag == .consumed then .consumed
+  else if sp.frag == .unsendable then .noSender
+  else if !sp.clOk then .noSender
   else .sent (c.wire sp.crcs)
 
 /-- `send_bundle`: returns the mutated container too (the caller reports on it). -/
@@ -269,31 +273,29 @@ def sendBundle (cfg : Cfg) (st : St) (now : Nat) (sp : SendParams) (c : Ctr) : S
   let r := applyPrimary cfg st now c
   (r.1, r.2, sendRes sp r.2)
 
-/-- BTSD of the age block: `now - create` through `UintField`; a negative Python int leaves as
-    a CBOR negative integer. -/
-def encAge (now create : Nat) : Bytes :=
-  if create ≤ now then encBundleAge (now - create) else head 1 (create - now - 1)
+/-- BTSD of the age block: `max(0, now - create)` -/
+def encAge (now create : Nat) : Bytes := encBundleAge (now - create)
 
+/-- the `except` branch of `_do_fwd`: the forwarding chosen by routing did not happen -/
 def fwdFail (st : St) (c : Ctr) (now : Nat) (extra : List Effect) : St × List Effect :=
-  let f := finish st (c.record .delete now (some reasonNoRoute))
+  let f := finish st (({ c with actions := delAct c.actions .forward }).record .delete now (some reasonNoRoute))
   (f.1, extra ++ f.2)
 
 /-- The hop-by-hop edits of `_do_fwd` up to `send_bundle`; the flag is false when an
-    `add_block` raised. -/
+    `add_block` raised (it never does, see `fwdEdit_ok`). -/
 def fwdEdit (cfg : Cfg) (st : St) (now : Nat) (c0 : Ctr) : St × Ctr × Bool :=
-  let c1 := c0.removeNums (evens (c0.clsNums .prev))
-  match c1.addBlock typePrevNode st.stickyPrev (encPrevNode cfg.nodeId) with
+  let c1 := c0.removeNums (c0.typeNums typePrevNode)
+  match c1.addBlock typePrevNode (encPrevNode cfg.nodeId) with
   | none => (st, c1, false)
   | some r =>
-    let st1 := { st with stickyPrev := some (st.stickyPrev.getD r.2) }
     let c3 := { r.1 with blocks := r.1.blocks.map bumpHop }
-    let c4 := c3.removeNums (evens (c3.clsNums .age))
-    if c4.primary.ts.time == 0 then (st1, c4, true)
+    let c4 := c3.removeNums (c3.typeNums typeAge)
+    if c4.primary.ts.time == 0 then (st, c4, true)
     else
-      let st2 := (timestamp st1 now).1
-      match c4.addBlock typeAge st2.stickyAge (encAge now c4.primary.ts.time) with
+      let st2 := (timestamp st now).1
+      match c4.addBlock typeAge (encAge now c4.primary.ts.time) with
       | none => (st2, c4, false)
-      | some r2 => ({ st2 with stickyAge := some (st2.stickyAge.getD r2.2) }, r2.1, true)
+      | some r2 => (st2, r2.1, true)
 
 /-- `_do_fwd` fired from the idle loop. -/
 def doFwd (cfg : Cfg) (st : St) (now : Nat) (sp : SendParams) : St × List Effect :=
@@ -308,7 +310,10 @@ def doFwd (cfg : Cfg) (st : St) (now : Nat) (sp : SendParams) : St × List Effec
       | .sent b =>
         let f := finish s.1 (s.2.1.record .forward now)
         (f.1, Effect.tx b.enc :: f.2)
-      | .noSender fr => fwdFail s.1 s.2.1 now (if fr then [.fragmented] else [])
+      | .consumed =>
+        let f := finish s.1 (s.2.1.record .forward now)
+        (f.1, Effect.fragmented :: f.2)
+      | .noSender => fwdFail s.1 s.2.1 now []
 
 /-- the idle `send_bundle(status)` source -/
 def sendReport (cfg : Cfg) (st : St) (now : Nat) (sp : SendParams) : St × List Effect :=
@@ -318,7 +323,8 @@ def sendReport (cfg : Cfg) (st : St) (now : Nat) (sp : SendParams) : St × List 
     let s := sendBundle cfg { st with rptQ := q } now sp r
     match s.2.2 with
     | .sent b => (s.1, [.tx b.enc])
-    | .noSender fr => (s.1, (if fr then [Effect.fragmented] else []) ++ [.escaped])
+    | .consumed => (s.1, [.fragmented])
+    | .noSender => (s.1, [.escaped])
 
 /-! ### histories -/
 
